@@ -58,6 +58,42 @@ def run(ctx, F, cg):
             ctx.violation("R02g", "%s|%s|%s|error-dropped" % (owner, callee, how), where(r_, line), "%s drops the error of %s (%s): with a predicate that fails on some row the answer depends on whether this path or the error-propagating one is taken (batch size, SAMYAMA_FILTER_PARALLEL_COST)" % (owner, callee, how))
     else:
         ctx.ok("R02g", "no-dropped-evaluation-error", "no evaluation error is dropped outside the reviewed sort-key sites")
+    ctx.rule("R02h", "(index independence) a literal-first comparison is served from the index through its mirror image: the operator table that turns `lit OP n.p` into `n.p OP' lit` maps <,>,<=,>= to >,<,>=,<= and leaves the rest alone (mirroring is not negation: `5 <= n.age` is `n.age >= 5`, not `n.age > 5`)")
+    # type-driven: planner functions BinaryOp -> BinaryOp (a negation table, if one is ever added, would be named so)
+    flips = [r_ for p_, r_ in F.fns.items() if p_.startswith("samyama::query::executor::") and "ast::BinaryOp) -> samyama::query::ast::BinaryOp" in r_["sig"]
+             and not r_.get("trait") and "::tests::" not in p_ and not any(w in p_.rsplit("::", 1)[-1] for w in ("negat", "invert", "complement"))]
+    ctx.floor("R02h", "comparison-mirroring tables in the planner", len(flips), 1)
+    MIRROR = {"Lt": "Gt", "Gt": "Lt", "Le": "Ge", "Ge": "Le"}
+    for fr in flips:
+        ctx.saw_fn(fr["path"])
+        table, wild_identity = {}, False
+        for m_ in F.arms(fr["path"]):
+            if not m_["sty"].replace("&", "").strip().endswith("ast::BinaryOp"):
+                continue
+            for arm in m_["arms"]:
+                pt = arm["pat"]
+                outs = [c.rsplit("::", 1)[-1] for c in arm["ctors"] if "BinaryOp::" in c]
+                if pt.get("k") == "variant":
+                    table[pt["p"].rsplit("::", 1)[-1]] = outs
+                elif pt.get("k") == "or":
+                    for e_ in pt["e"]:
+                        if e_.get("k") == "variant":
+                            table[e_["p"].rsplit("::", 1)[-1]] = outs
+                elif pt.get("k") in ("bind", "wild"):
+                    wild_identity = (not outs) and any(c.endswith("clone") for c in arm["calls"]) or (pt.get("k") == "bind" and not outs)
+        short = fr["path"].rsplit("::", 1)[-1]
+        wrong = {k: v for k, v in table.items() if (k in MIRROR and v != [MIRROR[k]]) or (k not in MIRROR and v not in ([k], []))}
+        missing = [k for k in MIRROR if k not in table]
+        if wrong:
+            k0 = sorted(wrong)[0]
+            ctx.violation("R02h", "%s|%s-maps-to-%s" % (short, k0, "+".join(wrong[k0]) or "nothing"), where(fr),
+                          "%s maps %s to %s; the mirror image is %s. With an index, `lit %s n.p` is then looked up over a different range than the filter it replaces, so rows at the bound appear or vanish depending on whether an index exists" % (short, k0, wrong[k0], MIRROR.get(k0, k0), k0))
+        elif missing and not wild_identity:
+            ctx.violation("R02h", "%s|no-arm-for-%s" % (short, missing[0]), where(fr), "%s has no arm for %s" % (short, missing))
+        elif missing:
+            ctx.violation("R02h", "%s|%s-left-unmirrored" % (short, missing[0]), where(fr), "%s passes %s through unchanged: an ordering operator must be mirrored when the operands are swapped" % (short, missing))
+        else:
+            ctx.ok("R02h", short, "Lt<->Gt, Le<->Ge, everything else unchanged")
     ctx.rule("R06a", "(shared with C06) the compacted tier answers as the write buffer does: deletion covers every representation")
     pairing.matrix(ctx, F, cg, "R02a", "property-index", ["IndexManager::index_insert"], ["IndexManager::index_remove"],
                    ["prop-set", "prop-kill", "label-kill", "node-kill"],
